@@ -7,25 +7,24 @@ FINDINGS = os.path.join(os.path.dirname(HERE), 'findings.d', 'C06.json')
 
 
 # ------------------------------------------------------------------ generator-side simulation
-RULE = ['n + n // 2 + 1']     # the collection threshold rule of the working tree (set from coq/Generated.v in run())
+RULE = [None]     # the collection threshold rule of the working tree, tabulated by the model driver (set in run())
 
 
 def rule(n):
-    return eval(RULE[0], {'__builtins__': {}}, {'n': n})
+    t = RULE[0]
+    return t[n] if t and n < len(t) else n + n // 2 + 1
 
 
-def load_rule():
-    """gc->mitems = <expr over gc->nitems>, as tools/genx_life.py read it off src/GC.c: the generator's
-    own simulation must predict threshold collections with the rule of the tree under test"""
+def load_rule(ctx, drv):
+    """gc->mitems as a function of gc->nitems, as tools/genx_life.py read it off src/GC.c (Generated.gc_mitems_rule,
+    extracted): the generator's own simulation must predict threshold collections with the rule of the tree under test"""
     try:
-        g = open(os.path.join(vlib.COQ, 'Generated.v')).read()
-        m = re.search(r'Definition gc_mitems_rule \(n : nat\) : nat := ([n0-9+*/() ]+)\.', g)
-        if m:
-            RULE[0] = m.group(1).replace('/', '//')
-            return True
-    except OSError:
-        pass
-    return False
+        out = ctx.run_lines(drv, [''], args=['rule'])[1]
+        RULE[0] = [int(x) for x in out[0].split()]
+        return len(RULE[0]) > 100
+    except Exception:
+        RULE[0] = None
+        return False
 
 
 class Sim:
@@ -718,10 +717,11 @@ def run(ctx):
     mine = json.load(open(FINDINGS)) if os.path.exists(FINDINGS) else []
     ctx.findings = [f for f in ctx.findings if f.get('property') != 'C06'] + mine
     ok = ctx.coq()
-    if not load_rule():
-        ctx.notes.append('collection threshold rule not found in Generated.v: generator simulates the pinned rule')
-    ctx.notes.append('collection threshold rule of the tree: mitems = %s' % RULE[0])
     drv = ctx.build_driver('Lifecycle')
+    if not load_rule(ctx, drv):
+        ctx.notes.append('collection threshold rule could not be tabulated: generator simulates the pinned rule')
+    else:
+        ctx.notes.append('collection threshold rule of the tree: mitems(0..5) = %s' % RULE[0][:6])
     h = ctx.build_harness('lifecycle.c', whitebox='GC')
     rc, pl, _ = ctx.run_lines(drv, [''], args=['params'])
     ctx.notes.append('model switches read off the C text: ' + (pl[0] if pl else '?'))
